@@ -163,7 +163,40 @@ def f(self, a, b):
 """),
 ]
 
+SAME += [
+    ("tuple result extended on the early-return side (numpy_bins_with_mask, wave 9 twin)", """
+def f(self):
+    edges, mask = to_numpy_bins_with_mask(self.bins)
+    if not self.includes_right_edge:
+        edges = np.concatenate([edges, np.asarray([np.inf])])
+    return edges, mask
+""", """
+def f(self):
+    edges, mask = to_numpy_bins_with_mask(self.bins)
+    if self.includes_right_edge:
+        return edges, mask
+    return np.concatenate([edges, np.asarray([np.inf])]), mask
+"""),
+]
+
 DIFFERENT = [
+    ("fast path that trusts a tolerance test for the gap mask (wave 9, C02-17)", """
+def f(self):
+    edges, mask = to_numpy_bins_with_mask(self.bins)
+    if not self.includes_right_edge:
+        edges = np.concatenate([edges, np.asarray([np.inf])])
+    return edges, mask
+""", """
+def f(self):
+    if self.is_consecutive():
+        edges = self.numpy_bins
+        mask = np.arange(self.bin_count)
+    else:
+        edges, mask = to_numpy_bins_with_mask(self.bins)
+    if not self.includes_right_edge:
+        edges = np.concatenate([edges, np.asarray([np.inf])])
+    return edges, mask
+"""),
     ("arithmetic on an array named before / after the array is changed in place (found by wave 8, C12-15)", """
 def f(self, axis):
     d = np.atleast_1d(self.a.sum(axis=axis))
